@@ -38,9 +38,9 @@ Count(f, bits) == Cardinality({b \in bits : Has(f, b)})
 OTypes == {OSTR, OBOOL, OINT, OFLT}
 ATypes == {ASTR, ABOOL, AINT, AFLT}
 \* what is passed as default: nothing, a scalar, a list - or a value Python treats as false although it is a default
-DefaultKinds == {"none", "scalar", "list", "falsy", "emptylist"}
+DefaultKinds == {"none", "scalar", "list", "falsy", "emptylist", "tuple"}    \* a tuple is a sequence but not a list: a scalar to the rules
 Given(d) == d # "none"
-NormD(d) == IF d = "falsy" THEN "scalar" ELSE IF d = "emptylist" THEN "list" ELSE d
+NormD(d) == IF d \in {"falsy", "tuple"} THEN "scalar" ELSE IF d = "emptylist" THEN "list" ELSE d
 
 \* ------------------------------------------------------------------ P-layer: flag words
 \* documented contradictions of an option
